@@ -437,6 +437,22 @@ fn main() {
                     let bi = (k + off) % usable.len();
                     let (names, applied) = renaming(&usable[bi].0.program, *pos, *class, rep * 7 + k, &banned);
                     if !applied.is_empty() {
+                        // Rust keywords: walk the *whole* pool at this position (first repetition only), so that every
+                        // keyword is tried at every position in every run, not a rotating sample
+                        if *class == Class::RustKeyword && rep == 0 {
+                            let pool_len = pool(Class::RustKeyword).len();
+                            let step = applied.len().max(1);
+                            let mut start = 0usize;
+                            while start < pool_len {
+                                let (names, applied) = renaming(&usable[bi].0.program, *pos, *class, start, &banned);
+                                if !applied.is_empty() {
+                                    let source = render(&usable[bi].0.program, &names);
+                                    jobs.push(Job { base: bi, pos: *pos, class: *class, names, applied, source });
+                                }
+                                start += step;
+                            }
+                            break;
+                        }
                         let source = render(&usable[bi].0.program, &names);
                         jobs.push(Job { base: bi, pos: *pos, class: *class, names, applied, source });
                         break;
